@@ -3,3 +3,5 @@ package det
 import "encoding/json"
 
 func jsonMarshalIndent(v interface{}) ([]byte, error) { return json.MarshalIndent(v, "", " ") }
+
+func jsonUnmarshal(b []byte, v interface{}) error { return json.Unmarshal(b, v) }
